@@ -79,6 +79,38 @@ def _template_job():
             rec.update(v)
             rec["events"] = ev if len(ev) <= 1500 else None
             out.append(rec)
+    # @onnx_function call-site pairs (the neighbourhoods of J2O_FnDedup's key: operand dtype / shape, keyword
+    # order, a definition re-used from a sibling function body), every target kind
+    from harness import fnjobs
+
+    def site(inst=1, kw="none", shp=1, dt=1, scope="top"):
+        return {"inst": inst, "kw": kw, "shp": shp, "dt": dt, "scope": scope}
+
+    fn_cfgs = {
+        "dtype_pair": [site(), site(dt=2)],
+        "shape_pair": [site(), site(shp=2)],
+        "kw_order": [site(kw="ab"), site(kw="ba")],
+        "sibling_bodies_same_inner": [site(scope="body"), site(scope="body")],
+        "sibling_bodies_other_inner": [site(scope="body"), site(inst=2, scope="body")],
+        "body_then_top": [site(scope="body"), site()],
+    }
+    for cname, sites in fn_cfgs.items():
+        for unique in (False, True):
+            for kind in ("plain", "nnx", "eqx", "free"):
+                cfg = {"unique": unique, "tab": "other_weights" if kind != "free" else "twin", "sites": sites, "sems": 1}
+                rec = {"key": f"fnpair::{cname}::{kind}::unique={unique}", "status": "ok"}
+                try:
+                    fdec, _, specs, kw, _ = fnjobs.build(cfg, kind)
+                    m = jax2onnx.to_onnx(fdec, specs, **kw)
+                except Exception as ex:  # noqa: BLE001
+                    rec["status"] = "export_failed"
+                    rec["why"] = f"{type(ex).__name__}: {str(ex)[:160]}"
+                    out.append(rec)
+                    continue
+                v, ev = validity(m)
+                rec.update(v)
+                rec["events"] = ev if len(ev) <= 1500 else None
+                out.append(rec)
     for name, (fn, specs, kw0) in faultjobs.programs().items():
         for kw in ({}, {"return_mode": "ir"}, {"enable_double_precision": True}):
             kk = dict(kw0)
@@ -138,7 +170,7 @@ def run(ctx: Ctx) -> None:
         for rec in out["result"]:
             if rec["status"] == "export_failed":
                 stats["export_failed"] += 1
-                if rec["key"].startswith(("template::", "program::")):
+                if rec["key"].startswith(("template::", "program::", "fnpair::")):
                     ctx.extra.setdefault("template_export_failures", []).append({rec["key"]: rec["why"]})
                 continue
             stats["ok"] += 1
